@@ -265,8 +265,9 @@ CMR_ERROR CMRequimodularTestStrong(CMR* cmr, CMR_INTMAT* matrix, bool* pisStrong
   {
     CMR_INTMAT* transpose = NULL;
     CMR_CALL( CMRintmatTranspose(cmr, matrix, &transpose) );
-    CMR_CALL( CMRequimodularTest(cmr, transpose, pisStronglyEquimodular, pgcdDet, params, stats, remainingTime) );
+    CMR_ERROR error = CMRequimodularTest(cmr, transpose, pisStronglyEquimodular, pgcdDet, params, stats, remainingTime);
     CMR_CALL( CMRintmatFree(cmr, &transpose) );
+    CMR_CALL( error );
   }
 
   return CMR_OKAY;
